@@ -1107,9 +1107,13 @@ class CircuitSerializer(serializer.Serializer):
             tags = [
                 deserialized_constants[tag_index]
                 for tag_index in operation_proto.tag_indices
-                if deserialized_constants[tag_index] not in op.tags
-                and deserialized_constants[tag_index] is not None
+                if deserialized_constants[tag_index] is not None
             ]
+            if isinstance(op, cirq.TaggedOperation):
+                # Tags restored from gate fields are usually in the list too: the list has the
+                # order the operation was written with.
+                restored = [tag for tag in op.tags if tag not in tags]
+                return op.untagged.with_tags(*restored, *tags)
         else:
             tags = []
             for tag in operation_proto.tags:
